@@ -12,6 +12,9 @@ import (
 
 func Mkdir(dir string) error {
 	if WriteOK("mkdir %s", dir) {
+		if err := verifPoint("mkdir", dir, ""); err != nil {
+			return err
+		}
 		err := os.MkdirAll(dir, 0755)
 		if nil != err {
 			return err
@@ -24,6 +27,9 @@ func Mkdir(dir string) error {
 func WriteTextFile(filename, contents string) error {
 	if !WriteOK("write text file %s", filename) {
 		return nil
+	}
+	if err := verifPoint("writetext", filename, ""); err != nil {
+		return err
 	}
 	file, err := os.OpenFile(filename, os.O_RDWR|os.O_CREATE, 0644)
 	if nil != err {
